@@ -22,7 +22,11 @@ def titanLit : List Char := ['t', 'i', 't', 'a', 'n', ':', '/', '/']
 def geminiLit : List Char := ['g', 'e', 'm', 'i', 'n', 'i', ':', '/', '/']
 def sizeLit : List Char := ['s', 'i', 'z', 'e']
 
-def isWs (c : Char) : Bool := c = ' ' || c = '\t' || c = '\n' || c = '\r' || c = '\x0b' || c = '\x0c'
+/-- Python's `str.isspace` (what `str.strip()` and `int()` strip): the ASCII part and the Unicode spaces -/
+def isWs (c : Char) : Bool :=
+  let n := c.toNat
+  (9 ≤ n && n ≤ 13) || (28 ≤ n && n ≤ 32) || n = 0x85 || n = 0xa0 || n = 0x1680 || (0x2000 ≤ n && n ≤ 0x200a) ||
+  n = 0x2028 || n = 0x2029 || n = 0x202f || n = 0x205f || n = 0x3000
 def stripWs (s : List Char) : List Char := ((s.dropWhile isWs).reverse.dropWhile isWs).reverse
 
 def splitAllAux (c : Char) : List Char → List Char → List (List Char)
